@@ -1,6 +1,6 @@
 (* C11 - Save then Load restores the same repository. *)
 From BR Require Import Base.Prelude Base.Compact Headers.Tree Headers.TreeBasics Headers.TreeInv
-     Headers.TreeSteps Headers.TreeStream Headers.TreeProps Headers.TreeExample.
+     Headers.TreeSteps Headers.TreeStream Headers.TreeProps Headers.TreeExample Headers.TreeRestore.
 Open Scope N_scope.
 
 (* after Save;Load(depth) from any reachable state: the invariant holds again (so the tip is again
@@ -23,10 +23,24 @@ Theorem C11_generations : forall cfg ops, cfg_ok cfg -> forall s, Inv s -> inv_f
   ops_ok cfg s ops -> Inv (fst (run cfg s ops)) /\ inv_file_ok (fst (run cfg s ops)).
 Proof. intros cfg ops Hc s HI Hf Ho. split; [apply run_inv; assumption|apply run_inv_file; assumption]. Qed.
 Print Assumptions C11_generations.
-(* Not proved in Coq: that the reported tip itself (not just its work class) and the side branches
-   within the retained depth are restored, and C11_future; decided by the correspondence check
-   (control run without Save/Load).  Byte-level codecs of the header files are compared with the
-   implementation only through Load's behaviour. *)
+(* side branches: a header off the best chain comes back - same header, height and work, held in
+   memory - exactly when the root of its side tree lies above the load horizon (tip height -
+   depth); a side tree rooted at or below the horizon is dropped whole; best-chain headers always
+   come back *)
+Theorem C11_side_trees : forall s d pick n, Inv s -> (0 <= d)%Z -> In n (nodes s) ->
+  let s2 := fst (load (fst (save s)) d pick) in
+  (is_anc (nodes s) (n_hash n) (tip s) = true \/ (load_horizon s d < side_root s (n_hash n))%Z ->
+     exists n2, find (n_hash n) (nodes s2) = Some n2 /\ core n2 = core n /\
+                (is_anc (nodes s) (n_hash n) (tip s) = false -> n_mem n2 = true)) /\
+  (is_anc (nodes s) (n_hash n) (tip s) = false -> (side_root s (n_hash n) <= load_horizon s d)%Z ->
+     find (n_hash n) (nodes s2) = None).
+Proof. exact side_trees_restored. Qed.
+Print Assumptions C11_side_trees.
+(* Not proved in Coq: that the reported tip itself (not just a tip of its work class: the tip is
+   re-chosen among the maximal-work headers restored, C01) is the same, and C11_future (later
+   submissions are treated alike); decided by the correspondence check (control run without
+   Save/Load).  Byte-level codecs of the header files are compared with the implementation only
+   through Load's behaviour. *)
 
 Example C11_example : tip (fst (load (fst (save (final ex_cfg ex_g ex_ops))) 1 5)) = 5.
 Proof. vm_compute. reflexivity. Qed.
